@@ -1266,6 +1266,27 @@ func (e *executor) exec1(line, lean string) string {
 				oracle += " REENTRANCY-DEPENDENT"
 			}
 		}
+		if a["reconf"] != "" && !ro.panicked && a["obj"] == "" {
+			// the caller changes its recipe VARIABLE while a call made through it is in flight (from
+			// inside the source's Read): the call in flight works on the recipe it was given
+			saved := *r
+			s2 := readerFor(a)
+			s2.reenterAt = a.int("reconf")
+			s2.reenter = func() {
+				r.RequireSets, r.Require, r.Exclude, r.Length, r.AllowChars, r.Allow = nil, 0, 0, 1, "Z", 0
+				withReader(&scripted{bytes: make([]byte, 64)}, func() { r.Generate() })
+			}
+			var p2 *spg.Password
+			var err2 error
+			ro2 := withReader(s2, func() { p2, err2 = r.Generate() })
+			capt.take()
+			*r = saved
+			if reentryBlocked {
+				reentryBlocked = false
+			} else if ro2.panicked || (err2 == nil) != (err == nil) || (p != nil && p2 != nil && p2.String() != p.String()) {
+				oracle += " RECONFIGURE-DEPENDENT(the caller reassigned the fields of its recipe variable while a call was in flight: that call's result changed)"
+			}
+		}
 		if a["slow"] != "" && !ro.panicked {
 			var p2 *spg.Password
 			var err2 error
@@ -1566,6 +1587,25 @@ func (e *executor) exec1(line, lean string) string {
 				return showTokens(p2.Tokens()), true
 			}, want, ro.panicked)
 		}
+		if a["reconf"] != "" && !ro.panicked && a["obj"] == "" && a["wlobj"] == "" {
+			saved := *r
+			s2 := readerFor(a)
+			s2.reenterAt = a.int("reconf")
+			s2.reenter = func() {
+				r.Length, r.SeparatorChar, r.SeparatorFunc, r.Capitalize = 1, "#", nil, spg.CSAll
+				withReader(&scripted{bytes: make([]byte, 64)}, func() { r.Generate() })
+			}
+			var p2 *spg.Password
+			var err2 error
+			ro2 := withReader(s2, func() { p2, err2 = r.Generate() })
+			capt.take()
+			*r = saved
+			if reentryBlocked {
+				reentryBlocked = false
+			} else if ro2.panicked || (err2 == nil) != (err == nil) || (p != nil && p2 != nil && showTokens(p2.Tokens()) != showTokens(p.Tokens())) {
+				so += " RECONFIGURE-DEPENDENT(the caller reassigned the fields of its recipe variable while a call was in flight: that call's result changed)"
+			}
+		}
 		if a["slow"] != "" && !ro.panicked {
 			var p2 *spg.Password
 			var err2 error
@@ -1611,6 +1651,17 @@ func (e *executor) exec1(line, lean string) string {
 			res += keptResultSurvives(&p)
 		}
 		return res
+
+	case "title":
+		// strings.Title itself, against its transcription in the model (ASCII words)
+		w := decCps(a["w"])
+		for _, c := range w {
+			if c >= 128 {
+				return "non-ascii"
+			}
+		}
+		t := strings.Title(w)
+		return "t=" + encCps(t) + " again=" + encCps(strings.Title(t))
 
 	case "explode":
 		pw := string(decHex(a["pw"]))
